@@ -122,4 +122,25 @@ example : parse ['a',' ','n','o','t','i','n','{','\'','q','\'',',','"','p','"','
 example : validate ['a',' ','=','='] = .error .expectedString := by rfl
 example : parse ['a',' ','=','='] = .error .expectedString := by rfl
 
+/-! ### corollaries: canonical text is valid, canonicalisation is idempotent -/
+
+/-- The canonical text of every accepted expression is itself accepted by `Validate`
+(so a canonical selector stored back into the datastore never fails validation). -/
+theorem validate_accepts_canonical {s : Str} {t : Node} (h : parse s = .ok t) :
+    validate t.text = .ok () :=
+  (validate_iff_parse t.text).2 ⟨t, reparse_exact h⟩
+
+/-- Canonicalisation is idempotent: the canonical text of the re-parsed canonical text is the
+canonical text (`Parse(sel.String()).String() == sel.String()` at every depth of repetition). -/
+theorem canonical_idempotent {s : Str} {t t' : Node} (h : parse s = .ok t)
+    (h' : parse t.text = .ok t') : t'.text = t.text := by
+  rw [reparse_exact h] at h'
+  cases h'
+  rfl
+
+/-- Two accepted expressions with the same canonical text are the same selector (same tree),
+hence match exactly the same label sets. -/
+theorem same_text_same_selector {s1 s2 : Str} {t1 t2 : Node} (h1 : parse s1 = .ok t1)
+    (h2 : parse s2 = .ok t2) (h : t1.text = t2.text) : t1 = t2 :=
+  text_injective (parse_wf h1) (parse_wf h2) h
 end CalicoVerif.C06
